@@ -138,8 +138,10 @@ def run(ctx: Ctx) -> None:
     for q, store in (("GlobalMargins.add_cumulative", "self._cumulatives[key]"), ("GlobalMargins.add_non_cumulative", "self._non_cumulatives[key]")):
         fn = tree.func(MG, q)
         ss = [s for s in walk_no_nested(fn) if isinstance(s, (ast.Assign, ast.AugAssign)) and canon(s.targets[0] if isinstance(s, ast.Assign) else s.target) == store]
-        ok = len(ss) == 1 and isinstance(ss[0], ast.Assign) and canon(ss[0].value) == "value" and not guards_of(ss[0], stop=fn)
-        ctx.ob("C20.COMBINE", MG, ss[0] if ss else fn, f"{q}: {src(ss[0]) if ss else '?'}", ok, expected=f"{store} = value (replace, never accumulate)", detail="the second (right/left) checking round registers every step again: registration must replace the entry, otherwise margins double when a validation step is present")
+        # the stored `value` must be the parameter itself: a re-binding of `value` before the store (e.g. value = old + value) accumulates just as well
+        rebinds = [n for n in ast.walk(fn) if isinstance(n, ast.Name) and n.id == "value" and isinstance(n.ctx, (ast.Store, ast.Del))]
+        ok = len(ss) == 1 and isinstance(ss[0], ast.Assign) and canon(ss[0].value) == "value" and not guards_of(ss[0], stop=fn) and not rebinds and "value" in [a.arg for a in fn.args.args]
+        ctx.ob("C20.COMBINE", MG, rebinds[0] if rebinds else (ss[0] if ss else fn), f"{q}: {src(ss[0]) if ss else '?'}" + (f" after re-binding `value` at line {rebinds[0].lineno}" if rebinds else ""), ok, expected=f"{store} = value, `value` being the untouched parameter (replace, never accumulate)", detail="the second (right/left) checking round registers every step again: registration must replace the entry, otherwise margins double when a validation step is present")
     td = tree.func(MG, "GlobalMargins.to_dict")
     rr = [n for n in walk_no_nested(td) if isinstance(n, ast.Return)]
     txt = canon(rr[0].value) if rr else ""
@@ -185,6 +187,8 @@ MUTANTS = [
     {"id": "global-sums-non-cumulative", "file": MG, "old": "return max_margins([self._cumulatives.sum(), *self.non_cumulatives.values()])", "new": "return max_margins([self._cumulatives.sum() + self._non_cumulatives.sum()])"},
     {"id": "main-drops-margins", "file": INIT, "old": '    cfg["margins"] = pandora_machine.margins.to_dict()\n', "new": ""},
     {"id": "add_cumulative-accumulates", "file": MG, "old": "        self._cumulatives[key] = value", "new": "        self._cumulatives[key] = self._cumulatives.get(key, Margins(0, 0, 0, 0)) + value"},
+    {"id": "add_cumulative-merges-by-rebinding", "file": MG, "old": "        self._cumulatives[key] = value", "new": "        if key in self._cumulatives:\n            value = self._cumulatives[key] + value\n        self._cumulatives[key] = value"},
+    {"id": "add_non_cumulative-max-by-rebinding", "file": MG, "old": "        self._non_cumulatives[key] = value", "new": "        if key in self._non_cumulatives:\n            value = max_margins([self._non_cumulatives[key], value])\n        self._non_cumulatives[key] = value"},
     {"id": "refinement-registers-nothing", "file": SM, "old": "        self.margins.add_cumulative(input_step, refinement_.margins)\n", "new": ""},
     {"id": "eq-floor-div", "kind": "equiv", "file": DS, "old": 'value = int((instance.__dict__["_window_size"] - 1) / 2)', "new": 'value = (instance.__dict__["_window_size"] - 1) // 2'},
     {"id": "eq-step-first", "kind": "equiv", "file": "pandora/filter/median.py", "old": "        value = self._filter_size * self._step\n", "new": "        value = self._step * self._filter_size\n"},
